@@ -103,6 +103,7 @@ def real_programs(k0: bool, k1: bool, k2: bool, k3: bool, evaluate: bool) -> boo
     if tick():
         return True
     k = bits(k0, k1, k2, k3)
+    evaluate = True if evaluate else False
     with NoTracing():
         code = REAL_PROGRAMS[k]
         r = Report()
